@@ -50,8 +50,15 @@ def generate(rng, tier):
     rng.shuffle(rest)
     data, style = statgen.gen_array(rng, 1, 4200, 1, "ar1")
     primer = {"op": "split", "ty": "f32", "e": 0, "data": data, "style": "primer", "primer": True}
+    # wide and long arrays inside the documented range (up to 5000 draws x 8 parameters): too long for the exact models, checked
+    # against a double-precision reading of the property text (error far below the f32-level tolerance).  Several parameters
+    # x padded length above 2^14 entries: scratch space shared between columns would show here
+    wide = []
+    for (m, n, pp) in [(2, 4200, 6), (1, 2300, 8)] + ([(3, 5000, 8), (4, 4098, 3), (2, 2050, 5)] if tier == "thorough" else []):
+        data, style = statgen.gen_array(rng, m, n, pp, rng.choice(["ar1", "iid"]))
+        wide.append({"op": "split", "ty": rng.choice(["f32", "f64"]), "e": 0, "data": data, "style": style + "@wide", "wide": True})
     k = len(rest) // 2
-    return [primer] + fft + rest[:k] + [dict(primer)] + [dict(c) for c in fft[::-1][:3]] + rest[k:]
+    return [primer] + wide + fft + rest[:k] + [dict(primer)] + [dict(c) for c in fft[::-1][:3]] + rest[k:]
 
 
 def qlit(m, e):
@@ -59,7 +66,7 @@ def qlit(m, e):
 
 
 def coq_term(case, out):
-    if "panic" in out or case.get("primer"):
+    if "panic" in out or case.get("primer") or case.get("wide"):
         return None
     data, e = case["data"], case["e"]
     m, n, p = len(data), len(data[0]), len(data[0][0])
@@ -142,6 +149,39 @@ def py_tau(halves):
     return -1 + 2 * out, (len(rho) // 2)
 
 
+def np_tau(halves):
+    """The property text in double precision (numpy), for arrays too long for exact rationals: W, B, var+, averaged
+    autocovariances by direct (zero-padded FFT in f64, error ~1e-13) correlation, Geyer's pair sums with positivity cut and
+    monotone clamp."""
+    import numpy as np
+    X = np.array(halves, dtype=np.float64)
+    M, N = X.shape
+    means = X.mean(axis=1)
+    W = float(((X - means[:, None]) ** 2).sum(axis=1).mean() / N)
+    B = float(((means - means.mean()) ** 2).sum() * N / (M - 1))
+    V = (N - 1) / N * W + B / N
+    if W == 0 or V == 0:
+        return None
+    Cc = X - means[:, None]
+    P = 1
+    while P < 2 * N:
+        P <<= 1
+    F = np.fft.rfft(Cc, n=P, axis=1)
+    ac = np.fft.irfft(F * np.conj(F), n=P, axis=1)[:, :N].mean(axis=0) / N
+    rho = 1 - (W - ac) / V
+    mn = rho[0] + rho[1]
+    out = 0.0
+    for j in range(0, N - 1, 2):
+        pj = rho[j] + rho[j + 1]
+        if pj <= 0:
+            break
+        if pj > mn:
+            pj = mn
+        mn = pj
+        out += pj
+    return -1 + 2 * out
+
+
 def oracle(case, out):
     if "panic" in out:
         return "split_rhat_mean_ess panicked: " + out["panic"]
@@ -151,7 +191,21 @@ def oracle(case, out):
     m, n, p = len(data), len(data[0]), len(data[0][0])
     h = n // 2
     if h > 300:
-        return None           # exact python evaluation too slow; the Coq model covers these
+        if not case.get("wide"):
+            return None           # exact python evaluation too slow; the Coq model covers these
+        for k in range(p):
+            halves = [[float(data[c][t][k]) for t in range(h)] for c in range(m)] + [[float(data[c][t][k]) for t in range(n - h, n)] for c in range(m)]
+            tau = np_tau(halves)
+            if tau is None or tau == 0:
+                continue
+            g = C.f32_bits_to_float(out["ess"][k])
+            if not math.isfinite(g) or g == 0.0:
+                return "param %d (%d chains x %d draws x %d parameters): ESS is %r" % (k, m, n, p, g)
+            gt = 2 * m * h / g
+            if abs(gt - tau) > (1 + abs(tau)) / 128:
+                return "param %d (%d chains x %d draws x %d parameters): reported ESS %.6g, (M*N)/tau by Geyer's rule = %.6g" % (
+                    k, m, n, p, g, 2 * m * h / tau)
+        return None
     sc = Fraction(2) ** e
     for k in range(p):
         halves = [[Fraction(data[c][t][k]) * sc for t in range(h)] for c in range(m)]
@@ -185,5 +239,5 @@ def extra(cases, outs, model):
     st = {}
     for c in cases:
         st[c["style"]] = st.get(c["style"], 0) + 1
-    return {"input_styles": st, "fft_path_cases": sum(1 for c in cases if len(c["data"][0]) // 2 > 100),
+    return {"wide_arrays_checked_against_f64_reading": sum(1 for c in cases if c.get("wide")), "input_styles": st, "fft_path_cases": sum(1 for c in cases if len(c["data"][0]) // 2 > 100),
             "bf_path_cases": sum(1 for c in cases if len(c["data"][0]) // 2 <= 100)}
